@@ -2,12 +2,15 @@
 use crate::by_ty;
 use crate::checks::*;
 use crate::checks2::*;
+use crate::checks3::*;
 use crate::runner::{Ctx, Stats, Tier, WorkerSpec};
 use crate::types::*;
 
 pub mod c01;
+pub mod c02;
 pub mod c04;
 pub mod calls;
+pub mod generic;
 
 pub struct Meta {
     pub rule: String,
@@ -19,8 +22,11 @@ pub struct Meta {
 pub fn meta(prop: &str, tier: Tier) -> Meta {
     match prop {
         "C01" => c01::meta(tier),
+        "C02" => c02::meta(tier),
         "C04" => c04::meta(tier),
         "C03" => calls::c03_meta(tier),
+        "C05" => generic::c05_meta(tier),
+        "C14" => generic::c14_meta(tier),
         "C06" => calls::c06_meta(tier),
         "C07" => calls::c07_meta(tier),
         "C08" => calls::c08_meta(tier),
@@ -33,8 +39,11 @@ pub fn meta(prop: &str, tier: Tier) -> Meta {
 pub fn worker(ctx: &mut Ctx) {
     match ctx.prop.clone().as_str() {
         "C01" => c01::worker(ctx),
+        "C02" => c02::worker(ctx),
         "C04" => c04::worker(ctx),
         "C03" => calls::c03_worker(ctx),
+        "C05" => generic::c05_worker(ctx),
+        "C14" => generic::c14_worker(ctx),
         "C06" => calls::c06_worker(ctx),
         "C07" => calls::c07_worker(ctx),
         "C08" => calls::c08_worker(ctx),
@@ -76,6 +85,11 @@ pub fn run_case(case: &Case) -> Outcome {
         "shape" => by_ty!(case.ty, k_shape(case)),
         "immut" => by_ty!(case.ty, k_immut(case)),
         "guard" => by_ty!(case.ty, k_guard(case)),
+        "exact" => k_exact(case),
+        "ops" => k_ops(case),
+        "structure" => k_structure(case),
+        "scratchlen" => k_scratchlen(case),
+        "altnum" => k_altnum(case),
         other => Outcome::skip(format!("unknown case kind {}", other)),
     }
 }
